@@ -96,6 +96,10 @@ class PDFParser(PSStackParser[Union[PSKeyword, PDFStream, PDFObjRef, None]]):
                     raise PDFSyntaxError("Unexpected EOF")
                 return
             pos += len(line)
+            # /Length may be anything: keep it inside the file (a negative
+            # value would read everything, a huge one raises OverflowError)
+            end = self.fp.seek(0, 2)
+            objlen = min(max(objlen, 0), max(end - pos, 0))
             self.fp.seek(pos)
             data = bytearray(self.fp.read(objlen))
             self.seek(pos + objlen)
